@@ -85,6 +85,15 @@ class _Canon(ast.NodeTransformer):
             return n.args[0]
         if f == "cast" and len(n.args) == 2:
             return n.args[1]
+        # N11: sum(f(x) for x in S) in the same normal form as the accumulation loop
+        if f == "sum" and len(n.args) == 1 and isinstance(n.args[0], ast.GeneratorExp) and len(n.args[0].generators) == 1 \
+                and not n.args[0].generators[0].ifs:
+            g = n.args[0].generators[0]
+            benv = {}
+            Sym(self.lemmas)._bind(g.target, ast.Name(id="ELEMS", ctx=ast.Load()), benv, ())
+            term = norm(canon(subst(n.args[0].elt, benv), self.lemmas))
+            return ast.Call(func=ast.Name(id="SUM", ctx=ast.Load()),
+                            args=[ast.Constant(value=_norm_seq(norm(g.iter))), ast.Constant(value=term)], keywords=[])
         # N6: floor is floor in both worlds: libc floor() on a C double, math.floor() on a Python float; the value is integral, so a
         # following int() / C int cast does not change it (within the int range, which R13.2 treats separately)
         if f in ("math.floor", "floor") and len(n.args) == 1:
@@ -156,6 +165,19 @@ class _Canon(ast.NodeTransformer):
         return n
 
 
+def order_atom(e):
+    """N10: every ordering test is written with `<`:  a >= b  is  not a < b;  a > b  is  b < a;  a <= b  is  not b < a  (total orders:
+    integers, minutes, dates -- the compared values of the twins are never NaN).  -> (expression, polarity flipped)"""
+    if isinstance(e, ast.Compare) and len(e.ops) == 1 and isinstance(e.ops[0], (ast.GtE, ast.Gt, ast.LtE)):
+        a, b = e.left, e.comparators[0]
+        if isinstance(e.ops[0], ast.GtE):
+            return ast.copy_location(ast.Compare(left=a, ops=[ast.Lt()], comparators=[b]), e), True
+        if isinstance(e.ops[0], ast.Gt):
+            return ast.copy_location(ast.Compare(left=b, ops=[ast.Lt()], comparators=[a]), e), False
+        return ast.copy_location(ast.Compare(left=b, ops=[ast.Lt()], comparators=[a]), e), True
+    return e, False
+
+
 class Lemmas:
     def __init__(self, enabled=()):
         self.enabled = set(enabled)
@@ -217,10 +239,10 @@ class Sym:
 
     def truth(self, e, conds):
         """three-valued truth of (canonical) condition e given literals on the path"""
-        t = norm(e)
-        k = self.known(t, conds)
+        e_, flip = order_atom(e)
+        k = self.known(norm(e_), conds)
         if k is not None:
-            return k
+            return k != flip
         if isinstance(e, ast.Constant):
             return bool(e.value)
         if isinstance(e, ast.UnaryOp) and isinstance(e.op, ast.Not):
@@ -396,7 +418,8 @@ class Sym:
     def _lit(self, e, pol):
         while isinstance(e, ast.UnaryOp) and isinstance(e.op, ast.Not):
             e, pol = e.operand, not pol
-        return (norm(e), pol)
+        e, flip = order_atom(e)
+        return (norm(e), pol != flip)
 
     def _bind(self, tgt, v, env, events):
         if isinstance(tgt, ast.Name):
@@ -499,10 +522,28 @@ class Sym:
         sub = Sym(self.lemmas, self.callee, self.call_pred, self.depth + 1)
         sub.loop_ids = self.loop_ids
         paths = sub.run(body, benv, (), ())
-        table = self.table(paths, effects_for=[c for c in carried if c in env])
+        table = self.table(paths, effects_for=[c for c in carried if c in env], loop_body=True)
         env2 = dict(env)
         for c in carried:
             env2[c] = ast.Name(id=f"AFTERLOOP{self.loop_no}_{c}", ctx=ast.Load())
+        # N11: `acc = a; for x in S: acc += f(x)`  is  `acc = a + sum(f(x) for x in S)`: one unconditional path, no event, and the
+        # only loop-carried effect is acc := acc + E with E free of loop-carried values
+        if len(paths) == 1 and not paths[0].conds and not paths[0].events and paths[0].outcome[0] == "fall":
+            live = [c for c in carried if c in env and norm(paths[0].env.get(c)) != f"LOOPVAR_{c}"]
+            if len(live) == 1:
+                c = live[0]
+                v = paths[0].env[c]
+                if isinstance(v, ast.BinOp) and isinstance(v.op, ast.Add) and norm(v.left) == f"LOOPVAR_{c}" and "LOOPVAR_" not in norm(v.right):
+                    term = norm(v.right).replace(f"ELEM{self.loop_no}", "ELEMS")
+                    total = ast.Call(func=ast.Name(id="SUM", ctx=ast.Load()),
+                                     args=[ast.Constant(value=_norm_seq(norm(seq_c))), ast.Constant(value=term)], keywords=[])
+                    init = env[c]
+                    env3 = dict(env)
+                    for c2 in carried:
+                        if c2 != c:
+                            env3[c2] = ast.Name(id=f"AFTERLOOP{self.loop_no}_{c2}", ctx=ast.Load())
+                    env3[c] = total if (isinstance(init, ast.Constant) and init.value == 0) else ast.BinOp(left=init, op=ast.Add(), right=total)
+                    return [Path(conds, events, ("fall", None), env3)]
         ev = events + (("for", norm(seq_c), table),)
         out = []
         # returns inside the loop body leave the function: summarised inside the table; after the loop we fall through
@@ -520,7 +561,7 @@ class Sym:
         sub = Sym(self.lemmas, self.callee, self.call_pred, self.depth + 1)
         sub.loop_ids = self.loop_ids
         paths = sub.run(list(st.body), benv, (), ())
-        table = self.table(paths, effects_for=[c for c in carried if c in env])
+        table = self.table(paths, effects_for=[c for c in carried if c in env], loop_body=True)
         inits = tuple((c, norm(env[c])) for c in carried if c in env)
         env2 = dict(env)
         for c in carried:
@@ -529,14 +570,16 @@ class Sym:
         return [Path(conds, ev, ("fall", None), env2)]
 
     # ---- tables
-    def table(self, paths, effects_for=()):
+    def table(self, paths, effects_for=(), loop_body=False):
         rows = set()
         # a variable is loop-carried only if its value from the previous iteration is read somewhere
         blob = " ".join(str((p.conds, p.events, p.outcome, [norm(v) for v in p.env.values()])) for p in paths)
         effects_for = [c for c in effects_for if f"LOOPVAR_{c}" in blob]
         for p in paths:
             eff = tuple((c, norm(p.env[c])) for c in effects_for if c in p.env and norm(p.env[c]) != f"LOOPVAR_{c}")
-            rows.add((frozenset(p.conds), p.events, p.outcome, eff))
+            # in a loop body `continue` and reaching the end of the body are the same thing: on to the next element
+            outcome = ("fall", None) if (loop_body and p.outcome[0] == "continue") else p.outcome
+            rows.add((frozenset(p.conds), p.events, outcome, eff))
         return frozenset(rows)
 
 
@@ -563,6 +606,13 @@ def consistent(assign: dict) -> bool:
             for t2, p2 in assign.items():
                 if p2 and t2.startswith(v + " >= "):
                     return False
+                if (not p2) and t2.startswith(v + " < ") and t2 != t:
+                    return False          # v < 0 and v >= n for a size n
+        # a < b and b < a exclude each other
+        if p and " < " in t and t.count(" < ") == 1:
+            a_, b_ = t.split(" < ")
+            if assign.get(f"{b_} < {a_}") is True:
+                return False
     return True
 
 
@@ -604,6 +654,13 @@ def _drop_empty_loops(events, assign):
 def _norm_seq(seq: str) -> str:
     """`D.get(K) or []` iterates exactly what `D[K]` iterates whenever it iterates anything."""
     core = seq[:-len(" or []")] if seq.endswith(" or []") else (seq[len("[] or "):] if seq.startswith("[] or ") else None)
+    if core is None and ".get(" in seq and seq.endswith(")"):
+        try:
+            e_ = ast.parse(seq, mode="eval").body
+        except SyntaxError:
+            e_ = None
+        if isinstance(e_, ast.Call) and isinstance(e_.func, ast.Attribute) and e_.func.attr == "get" and len(e_.args) == 1 and not e_.keywords:
+            return f"{norm(e_.func.value)}[{norm(e_.args[0])}]"       # iterating D.get(K) itself: whenever that iterates anything it is D[K]
     if core is not None and ".get(" in core and core.endswith(")"):
         d_, k_ = core[: core.index(".get(")], core[core.index(".get(") + 5: -1]
         return f"{d_}[{k_}]"
